@@ -94,7 +94,10 @@ def sym_code(body=b''):
 
 
 EXT = {'P?': sym_parse, 'B?': sym_bind, 'D?': sym_describe, 'C?': sym_close, 'E': lambda: conc_msg('E', E()),
+       'Pbegin': lambda: conc_msg('Pbegin', P('', 'BEGIN')), 'Pcommit': lambda: conc_msg('Pcommit', P('', 'COMMIT')), 'Perror': lambda: conc_msg('Perror', P('', 'SELECT 1/0')),
+       'Pset': lambda: conc_msg('Pset', P('', 'SET statement_timeout TO 5')),
        'P': lambda: conc_msg('P', P('', 'SELECT 1')), 'P2': lambda: conc_msg('P2', P('', 'SELECT 2')),
+       'Pst1': lambda: conc_msg('Pst1', P('s1', 'SELECT * FROM t1')), 'Pst2': lambda: conc_msg('Pst2', P('s2', 'SELECT * FROM t2')), 'Bs2': lambda: conc_msg('Bs2', B('', 's2')),
        'Pt1': lambda: conc_msg('Pt1', P('', 'SELECT * FROM t1')), 'Pt2': lambda: conc_msg('Pt2', P('', 'SELECT * FROM t2')), 'Ps': lambda: conc_msg('Ps', P('s1', 'SELECT 1')), 'Bs': lambda: conc_msg('Bs', B('', 's1')),
        'B': lambda: conc_msg('B', B('', '')), 'Cs': lambda: conc_msg('Cs', C('S', 's1')), 'Ds': lambda: conc_msg('Ds', D('S', 's1')),
        'S': lambda: conc_msg('S', S), 'H': lambda: conc_msg('H', H), 'X': lambda: conc_msg('X', X)}
@@ -207,7 +210,8 @@ def run_case(chk, ob, ip, prog, case, props, extra_judge=None):
         if case.plugins:
             settings_over['query_parser_enabled'] = BV(1, 1)
         env = HE.HandleEnv(ip_, prog, bks, sent, client_over=client_over, pool_over=pool_over, paused=(case.paused in ('start', 'start-resume')),
-                           pending_at=pend, on_pending=on_pending, settings_over=settings_over)
+                           pending_at=pend, on_pending=on_pending, settings_over=settings_over,
+                           boundaries=[sum(len(mm) for mm in msgs[:k]) for k in range(len(msgs) + 1)])
         verdicts = {}
         if case.plugins:
             env.plugin_verdicts = case.plugins
@@ -228,14 +232,19 @@ def run_case(chk, ob, ip, prog, case, props, extra_judge=None):
         denied = None
         eff = complete
         if case.plugins:
-            eff, denied_msgs = effective_script(complete, verdicts)
+            eff, denied_msgs = effective_script(complete, verdicts, bool(case.cache))
+
+            denied_sql = [sql_of(dm) for dm in denied_msgs]
 
             def denied(m):
-                return any(HE.same_bytes(dec, m, dm) for dm in denied_msgs)
+                # the denied statement text inside any Query / Parse that reaches a backend (statement names may be rewritten)
+                cm = HE.conc(m)
+                return cm is not None and cm[:1] in (b'Q', b'P') and any(t and t in cm for t in denied_sql)
         customV = []
         if case.custom:
             eff, customV = custom_reference(data, complete, dec, case.shards or [case.roles])
-        V = HE.judge(data, eff, dec, cache_on=bool(case.cache), expect_incomplete=inc, denied=denied, allow_pooler_replies=bool(case.plugins or case.custom))
+        V = HE.judge(data, eff, dec, cache_on=bool(case.cache), expect_incomplete=inc, denied=denied, allow_pooler_replies=bool(case.plugins or case.custom),
+                     idle_rule=(case.mode == 'transaction' and not case.plugins and not case.custom and eff is complete))
         V += customV
         if extra_judge:
             V += extra_judge(env, data, complete, dec)
@@ -250,6 +259,12 @@ def run_case(chk, ob, ip, prog, case, props, extra_judge=None):
             hexs = bytes(model_byte(m, b) for b in sent).hex()
             cmd = {'op': 'handle_script', 'client_hex': hexs, 'eof': True, 'mode': case.mode, 'cache': case.cache,
                    'roles': ['primary' if r == 0 else 'replica' for r in case.roles]}
+            if key == 'H/idle-client-keeps-server':
+                # natively: the client stays connected and idle after the completed request; a second client must still be served
+                kk = int(re.search(r'request (\d+) completed', text).group(1))
+                upto = sum(len(mm) for mm in msgs[:kk + 1])
+                cmd['client_hex'] = hexs[:2 * upto]
+                cmd['eof'] = False
             if case.shards:
                 cmd['shards'] = [['primary' if r == 0 else 'replica' for r in rs] for rs in case.shards]
                 cmd.pop('roles', None)
@@ -451,6 +466,8 @@ def custom_reference(data, script, dec, shard_roles):
     by_msg = {}
     stmts = [(k, m, sh, ro) for k, kind, m, sh, ro in cmds if kind == 'stmt']
     creqs = [r for r in data['reqs'] if r.get('origin') == 'client' and HE.code_of(r['bytes']) == 'Q']
+    if os.environ.get('HDEBUG'):
+        print('  ROUTE', [(k, sh, ro) for k, m, sh, ro in stmts], [(r['backend']) for r in creqs], cmds and [(c[0], c[1], c[3]) for c in cmds])
     for (k, m, sh, ro), r in zip(stmts, creqs):
         bshard, brole = binfo[r['backend']]
         if isinstance(sh, int) and bshard != sh:
@@ -499,11 +516,15 @@ def install_plugin_stubs(ip, env, msgs, verdicts):
     ip.overrides.append((re.compile(r'^(?:query_router::)?QueryRouter::infer$'), lambda c, qr, ast: ok(c.ip, unit())))
 
 
-def effective_script(script, verdicts):
+def effective_script(script, verdicts, cache_on=False):
     """Reference: a simple query whose verdict is deny/intercept is never forwarded; an extended batch containing a Parse whose
-    verdict is deny/intercept is dropped as a whole when its Sync or Flush arrives."""
+    verdict is deny/intercept is dropped as a whole when its Sync or Flush arrives.  With statement caching on, the names such a
+    batch tried to prepare are unknown to the pooler afterwards: a later Bind/Describe of one is answered with "prepared
+    statement does not exist" and the pooler ends the session (nothing later is forwarded)."""
     eff, denied = [], []
-    batch, batch_bad = [], False
+    batch, batch_bad, batch_names = [], False, []
+    rejected_names = set()
+
     def first_same(k):
         # plugins are functions of the statement: identical messages share one verdict (keyed by the first occurrence)
         for j in range(k):
@@ -511,25 +532,57 @@ def effective_script(script, verdicts):
             if len(a) == len(b) and all((x.concrete and y.concrete and x.v == y.v) or (x is y) for x, y in zip(a, b)):
                 return j
         return k
+
+    def cstr(bs, off):
+        out = []
+        while off < len(bs) and not (bs[off].concrete and bs[off].v == 0):
+            out.append(bs[off].v if bs[off].concrete else -1)
+            off += 1
+        return tuple(out), off + 1
     for k, m in enumerate(script):
         c = HE.code_of(m)
         bad = verdicts.get(first_same(k), 0) != 0
+        if cache_on and c in 'BD':
+            if c == 'B':
+                _portal, o = cstr(m, 5)
+                name, _ = cstr(m, o)
+            else:
+                name = cstr(m, 6)[0] if (m[5].concrete and m[5].v == ord('S')) else ()
+            if name and name in rejected_names:
+                return eff, denied
         if c == 'Q':
             (denied if bad else eff).append(m)
         elif c in 'PBDEC':
             batch.append(m)
-            if c == 'P' and bad:
-                batch_bad = True
-                denied.append(m)
+            if c == 'P':
+                batch_names.append(cstr(m, 5)[0])
+                if bad:
+                    batch_bad = True
+                    denied.append(m)
         elif c in 'SH':
             if not batch_bad:
                 eff += batch + [m]
-            batch, batch_bad = [], False
+                rejected_names -= set(batch_names)
+            else:
+                rejected_names |= set(n for n in batch_names if n)
+            batch, batch_bad, batch_names = [], False, []
         else:
             eff.append(m)
     if not batch_bad:
         eff += batch
     return eff, denied
+
+
+def sql_of(m):
+    """Statement text of a Query / Parse message (concrete)."""
+    cm = HE.conc(m)
+    if cm is None:
+        return None
+    if cm[:1] == b'Q':
+        return cm[5:]
+    if cm[:1] == b'P':
+        return cm[5:].split(b'\0', 2)[1] + b'\0'
+    return None
 
 
 def model_byte(m, b):
@@ -552,18 +605,24 @@ def h_violation(prop, key, cache_on, incomplete, hexs, n_before=None, denied_hex
         data = HE.collect_native(r)
         complete, _rest = HE.split_messages(HE.bvs(eff_hex[0] if eff_hex else hexs), 'client script')
         dmsgs = [HE.bvs(h) for h in (denied_hex or ())]
+        dsql = [sql_of(dm) for dm in dmsgs]
         dec = HE.Decider(None)
         customV = []
         if custom_shards:
             complete, customV = custom_reference(data, complete, dec, custom_shards)
         V = HE.judge(data, complete, dec, cache_on=cache_on, expect_incomplete=incomplete,
-                     denied=(lambda mm: any(HE.same_bytes(dec, mm, dm) for dm in dmsgs)) if dmsgs else None,
+                     denied=(lambda mm: HE.conc(mm)[:1] in (b'Q', b'P') and any(t and t in HE.conc(mm) for t in dsql)) if dmsgs else None,
                      allow_pooler_replies=bool(eff_hex or custom_shards)) + customV
         hit = [v for v in V if v[0] == prop and v[1] == key]
         if prop == 'C16' and key == 'H/checkout-while-paused':
             # natively the pause gate is observed as: a request sent after PAUSE reaches a backend while the pool is still paused
             n = sum(1 for rq in data['reqs'] if rq.get('origin') == 'client')
             hit = [1] if (r.get('paused_at_end') and n > (n_before or 0)) else []
+        if key == 'H/idle-client-keeps-server':
+            # the second client (pool of ONE connection) is not served while the first one sits idle outside a transaction
+            bout = bytes.fromhex(r.get('b_out', ''))
+            served = b'SELECT 1\x00Z' in bout
+            hit = [1] if (r.get('a_result') == 'still-running' and not served) else []
         if prop == 'C16' and key == 'H/held-after-resume':
             hit = [1] if (r.get('a_result') == 'still-running' or any(v[1] == 'H/request-not-forwarded' for v in V)) else []
         return (bool(hit), 'native run: a_result=%s, client-originated requests seen by backends=%d, violations=%s' %
